@@ -646,6 +646,46 @@ def _table_of_pairgens(m, fn, callee, pairgens) -> bool:
     return all(isinstance(v, ast.Name) and v.id in pairgens for v in vals[0].values)
 
 
+def _fold_enum_labels(ctx: Ctx):
+    """Vectors for an enumeration reference, folded (E5) on synthetic enumerations: a declared value is labelled True; a
+    value the enumeration does not declare is labelled True exactly when supportsCustomValues is true (an explicit false
+    and an absent flag both mean closed)."""
+    from ..microeval import Interp, Record, Raised
+    try:
+        tree = ast.parse(ctx.src.text(P_TD))
+    except SyntaxError as e:
+        raise AnalysisError(f"{P_TD}: {e}")
+    it = Interp(tree, name=P_TD)
+    f = it.globals.get("generate_for_reference")
+    if f is None:
+        raise AnalysisError(f"{P_TD}: generate_for_reference not found")
+    ctx.fn("testdata_generator.py:generate_for_reference (enumeration branch)")
+    n = 0
+    for base, vals in (("integer", [1, 2]), ("string", ["a", "b"])):
+        for flag in (None, False, True):
+            en = Record("Enum", {"name": "SomeKind", "supportsCustomValues": flag, "documentation": None, "proposed": None,
+                                 "type": Record("Type", {"kind": "base", "name": base}),
+                                 "values": [Record("EnumItem", {"name": f"M{i}", "value": v, "documentation": None, "proposed": None})
+                                            for i, v in enumerate(vals)]})
+            spec = Record("LSPModel", {"structures": [], "typeAliases": [], "enumerations": [en], "requests": [], "notifications": []})
+            try:
+                out = list(f("SomeKind", spec, []))
+            except Raised as e:
+                raise AnalysisError(f"{P_TD}: generate_for_reference raises {e.exc_name} for a synthetic enumeration")
+            n += 1
+            for pair in out:
+                if not (isinstance(pair, tuple) and len(pair) == 2):
+                    continue
+                label, value = pair
+                declared = any(value == v and type(value) is type(v) for v in vals)
+                want = True if declared else (flag is True)
+                ctx.check(label is want or label == want, "enum-vector-label", f"base={base} supportsCustomValues={flag} value={value!r}",
+                          f"for a {base} enumeration with supportsCustomValues={flag} the vector {value!r} "
+                          f"({'declared' if declared else 'not declared'}) is labelled {label}; it must be {want}", P_TD, None,
+                          sample={"base": base, "supportsCustomValues": flag, "value": repr(value), "label": label})
+    ctx.floor("enumeration label cases folded", n, 6)
+
+
 _run_c17 = run
 
 
@@ -660,6 +700,7 @@ def run(ctx: Ctx):  # noqa: F811
         ctx.notes.append(f"syntactic file-name rule skipped: {e}")
     _fold_generate(ctx)
     _testdata_flatten(ctx)
+    _fold_enum_labels(ctx)
     # labels are computed against the model being generated from: no lookup cache / memo may carry definitions of an
     # earlier model into the next run
     from ..genlint import cross_run_state, Index as _Index
